@@ -126,21 +126,22 @@ theorem popIdents_unknown (u : UC) : ∀ (stmts : List Stmt) (s : BState),
 
 /-! ### phase 3: an association that `define_association` rejects -/
 
-/-- why `define_association` rejects a CREATE ROP statement: unknown source class, unknown target class, key lists of
-    different length, or a target key that is not an attribute of the target class -/
+/-- why `define_association` rejects a CREATE ROP statement: unknown source class, unknown target class, a source key
+    of the form `__x__`, key lists of different length, or a target key that is not an attribute of the target class -/
 def RopBad (u : UC) (classes : List ClassB) (sk : Name) (skeys : List Name) (tk : Name) (tkeys : List Name) : Prop :=
   (∀ c ∈ classes, sameKind u c.kind sk = false) ∨ (∀ c ∈ classes, sameKind u c.kind tk = false) ∨
-  skeys.length ≠ tkeys.length ∨
+  skeys.any isDunder = true ∨ skeys.length ≠ tkeys.length ∨
   (∀ c ∈ classes, sameKind u c.kind tk = true → ∃ k ∈ tkeys, (c.attrs.map fun a => u.upper a.1).contains (u.upper k) = false)
 
 theorem RopBad.map (u : UC) (g : ClassB → ClassB) (hk : ∀ c, (g c).kind = c.kind) (ha : ∀ c, (g c).attrs = c.attrs)
     {classes : List ClassB} {sk tk : Name} {skeys tkeys : List Name} (h : RopBad u classes sk skeys tk tkeys) :
     RopBad u (classes.map g) sk skeys tk tkeys := by
-  rcases h with h | h | h | h
+  rcases h with h | h | h | h | h
   · left; intro c hc; obtain ⟨c0, hc0, rfl⟩ := List.mem_map.mp hc; rw [hk]; exact h c0 hc0
   · right; left; intro c hc; obtain ⟨c0, hc0, rfl⟩ := List.mem_map.mp hc; rw [hk]; exact h c0 hc0
   · right; right; left; exact h
-  · right; right; right
+  · right; right; right; left; exact h
+  · right; right; right; right
     intro c hc hs
     obtain ⟨c0, hc0, rfl⟩ := List.mem_map.mp hc
     rw [hk] at hs; rw [ha]; exact h c0 hc0 hs
@@ -160,9 +161,13 @@ theorem popAssocs_step_bad (u : UC) (s : BState) (rel sk sc : Name) (skeys : Lis
       have hk2 : sameKind u c2.kind tk = true := by have := List.find?_some h2; exact this
       have hm1 : c1 ∈ s.classes := List.mem_of_find?_eq_some h1
       have hk1 : sameKind u c1.kind sk = true := by have := List.find?_some h1; exact this
-      rcases h with h | h | h | h
+      by_cases hdu : skeys.any isDunder = true
+      · simp only [hdu, if_true]
+      simp only [hdu, Bool.false_eq_true, if_false]
+      rcases h with h | h | h | h | h
       · have := h c1 hm1; rw [hk1] at this; cases this
       · have := h c2 hm2; rw [hk2] at this; cases this
+      · exact absurd h hdu
       · have : (skeys.length != tkeys.length) = true := by simpa using h
         simp only [this, if_true]
       · by_cases hl : (skeys.length != tkeys.length) = true
@@ -198,6 +203,8 @@ theorem popAssocs_bad (u : UC) : ∀ (stmts : List Stmt) (s : BState),
           | none => rfl
           | some c2 =>
             simp only
+            split
+            · rfl
             split
             · rfl
             · split
@@ -344,39 +351,39 @@ theorem buildCore_fails_insert (u : UC) (pre post : List Stmt) (kind : Name) (va
   simp only [h1, h2, h3]
   exact popInstances_first_failure u pre s3 s' kind values names post e hpre hins
 
-/-! ### … lifted to `build` (no `__x__` identifier in an attribute position) -/
+/-! ### … lifted to `build` (the fifth phase never raises) -/
 
-theorem build_of_core_error (u : UC) (stmts : List Stmt) (e : BuildErr) (hp : touchesInternals stmts = false)
-    (h : buildCore u stmts = .error e) : build u stmts = .error e := by rw [build_eq_core u stmts hp]; exact h
+theorem build_of_core_error (u : UC) (stmts : List Stmt) (e : BuildErr) (h : buildCore u stmts = .error e) :
+    build u stmts = .error e := by rw [build_eq_core u stmts]; exact h
 
-theorem build_fails_duplicate (u : UC) (stmts : List Stmt) (hp : touchesInternals stmts = false)
+theorem build_fails_duplicate (u : UC) (stmts : List Stmt)
     (h : ¬ KindsDistinct u (newTables stmts)) : build u stmts = .error .metaErr :=
-  build_of_core_error u stmts _ hp (buildCore_fails_duplicate u stmts h)
+  build_of_core_error u stmts _ (buildCore_fails_duplicate u stmts h)
 
-theorem build_fails_attr_names (u : UC) (stmts : List Stmt) (hp : touchesInternals stmts = false)
+theorem build_fails_attr_names (u : UC) (stmts : List Stmt)
     (h : ∃ c ∈ newTables stmts, attrNamesOk u c.attrs = false) : build u stmts = .error .metaErr :=
-  build_of_core_error u stmts _ hp (buildCore_fails_attr_names u stmts h)
+  build_of_core_error u stmts _ (buildCore_fails_attr_names u stmts h)
 
-theorem build_fails_index (u : UC) (stmts : List Stmt) (hp : touchesInternals stmts = false)
+theorem build_fails_index (u : UC) (stmts : List Stmt)
     (hd : KindsDistinct u (newTables stmts)) (hn : ∀ c ∈ newTables stmts, attrNamesOk u c.attrs = true)
     (h : ∃ kind name attrs, Stmt.createIndex kind name attrs ∈ stmts ∧ attrs ≠ [] ∧
       ∀ c ∈ newTables stmts, sameKind u c.kind kind = false) : build u stmts = .error .metaErr :=
-  build_of_core_error u stmts _ hp (buildCore_fails_index u stmts hd hn h)
+  build_of_core_error u stmts _ (buildCore_fails_index u stmts hd hn h)
 
-theorem build_fails_rop (u : UC) (stmts : List Stmt) (hp : touchesInternals stmts = false)
+theorem build_fails_rop (u : UC) (stmts : List Stmt)
     (hd : KindsDistinct u (newTables stmts)) (hn : ∀ c ∈ newTables stmts, attrNamesOk u c.attrs = true)
     (hi : ∀ kind name attrs, Stmt.createIndex kind name attrs ∈ stmts → attrs ≠ [] → ∃ c ∈ newTables stmts, sameKind u c.kind kind = true)
     (h : ∃ rel sk sc skeys sp tk tc tkeys tp, Stmt.createRop rel sk sc skeys sp tk tc tkeys tp ∈ stmts ∧
       RopBad u (newTables stmts) sk skeys tk tkeys) : build u stmts = .error .metaErr :=
-  build_of_core_error u stmts _ hp (buildCore_fails_rop u stmts hd hn hi h)
+  build_of_core_error u stmts _ (buildCore_fails_rop u stmts hd hn hi h)
 
 theorem build_fails_insert (u : UC) (pre post : List Stmt) (kind : Name) (values : List Text) (names : Option (List Name))
-    (s1 s2 s3 s' : BState) (e : BuildErr) (hp : touchesInternals (pre ++ Stmt.insert kind values names :: post) = false)
+    (s1 s2 s3 s' : BState) (e : BuildErr)
     (h1 : popClasses u (pre ++ Stmt.insert kind values names :: post) BState.empty = .ok s1)
     (h2 : popIdents u (pre ++ Stmt.insert kind values names :: post) s1 = .ok s2)
     (h3 : popAssocs u (pre ++ Stmt.insert kind values names :: post) s2 = .ok s3)
     (hpre : popInstances u pre s3 = .ok s') (hins : popInstance u s' kind values names = .error e) :
     build u (pre ++ Stmt.insert kind values names :: post) = .error e :=
-  build_of_core_error u _ _ hp (buildCore_fails_insert u pre post kind values names s1 s2 s3 s' e h1 h2 h3 hpre hins)
+  build_of_core_error u _ _ (buildCore_fails_insert u pre post kind values names s1 s2 s3 s' e h1 h2 h3 hpre hins)
 
 end Pyx.Sql
